@@ -151,7 +151,8 @@ func checksWithTagPrefix(prefix string, checks api.HealthChecks) api.HealthCheck
 			continue
 		}
 		for _, t := range c.ServiceTags {
-			if strings.HasPrefix(t, prefix) {
+			// routecmd.build trims tags before it tests the prefix
+			if strings.HasPrefix(strings.TrimSpace(t), prefix) {
 				checksWithPrefix = append(checksWithPrefix, c)
 				break
 			}
